@@ -381,10 +381,23 @@ impl<'grammar> TypeInferencer<'grammar> {
             SymbolKind::Name(_, ref s) | SymbolKind::Tuple(_, ref s) => self.symbol_type(&s.kind),
             SymbolKind::Error => Ok(self.types.error_recovery_type().clone()),
 
+            // A `#X#` type written by the user is not seen by name resolution.
+            SymbolKind::AmbiguousId(ref id) => {
+                let nt_id = NonterminalString(id.clone());
+                if self.nonterminals.contains_key(&nt_id) {
+                    self.nonterminal_type(&nt_id)
+                } else {
+                    let span = match self.stack.last() {
+                        Some(nt) => self.nonterminals[nt].span,
+                        None => Span(0, 0),
+                    };
+                    return_err!(span, "unresolved symbol `{}` in type annotation", id)
+                }
+            }
+
             SymbolKind::Repeat(..)
             | SymbolKind::Expr(..)
             | SymbolKind::Macro(..)
-            | SymbolKind::AmbiguousId(..)
             | SymbolKind::Lookahead
             | SymbolKind::Lookbehind => {
                 unreachable!("symbol `{:?}` should have been expanded away", symbol)
